@@ -104,6 +104,7 @@ template <typename T> struct Runner {
             src.reserve(op.size());
             for (size_t i = 2; i < op.size(); ++i) src.push_back(E::make(op[i]));
             { LogScope ls; arr[b] = new A(src.data(), src.size()); }
+            if (arr[b]->array() == src.data()) fail("an Array built from a pointer and a length (copying) shares the caller's storage");
             ref[b] = {true, std::vector<std::optional<int64_t>>(op.begin() + 2, op.end())};
             out({});
             break;
@@ -175,6 +176,17 @@ template <typename T> struct Runner {
         }
         case 13: out({show((*arr[b])[(size_t) op[2]])}); break;
         case 14: out({show(arr[b]->front()), show(arr[b]->back())}); break;
+        case 16: {
+            // Array(ptr, n, copy = false): the Array adopts a malloc'ed block whose elements the caller constructed
+            size_t n = op.size() - 2;
+            T *block = static_cast<T *>(malloc((n ? n : 1) * sizeof(T)));
+            for (size_t i = 0; i < n; ++i) new (&block[i]) T(E::make(op[i + 2]));
+            { LogScope ls; arr[b] = new A(block, n, false); }
+            if (arr[b]->array() != block) fail("an adopting Array (copy = false) does not use the caller's block");
+            ref[b] = {true, std::vector<std::optional<int64_t>>(op.begin() + 2, op.end())};
+            out({});
+            break;
+        }
         case 15: {
             // the fill value is a reference to an element of the same array
             auto v = ref[b].v.at((size_t) op[3]);
